@@ -8,7 +8,7 @@ def main(tier, args):
                    plain_srcs=[vf.VERIF + "/engine/sched/log_stub.cpp"])
     # lane 0 = base menu, all scripts; lane 1 = life-cycle menu (re-initialise / re-create / close peer; at most 2 of them per history) on the scripts the harness selects for it.
     # One process per (configuration, lane, partition of the first operation): evaluations that do not depend on the script are shared inside a process.
-    depth, depth1, dl, np0, np1, cap = (5, 4, 80, 2, 4, 60000) if tier == "quick" else (7, 5, 1300, 4, 6, 300000)
+    depth, depth1, dl, np0, np1, cap = (5, 4, 80, 2, 4, 60000) if tier == "quick" else (7, 5, 1300, 2, 4, 300000)
     res = vf.Result(); log = open(vf.BUILD + "/C03/log.txt", "w")
     jobs = []
     for cfg in range(NCFG):
